@@ -26,14 +26,21 @@ theorem calmH_pkceHandle (cfg code v client) : calmH (pkceHandle cfg code v clie
   unfold pkceHandle
   apply calmH_bind _ _ (calmH_callH _ (by guardless)); intro r
   split
-  · apply calmH_bind _ _ (calmH_expectOk _ _ (by guardless) (fun _ => calm_retErr _)); intro _
-    apply calmH_bind _ _ (calmH_optErr _); intro _
+  · apply calmH_bind _ _ (calmH_optErr _); intro _
     exact calmH_optErr _
   · split
     · split
       · exact calmH_optErr _
       · exact calmH_fail _
     · exact calmH_fail _
+
+theorem calmH_pkcePopulate (code) : calmH (pkcePopulate code) := by
+  unfold pkcePopulate
+  apply calmH_bind _ _ (calmH_callH _ (by guardless)); intro r
+  split
+  · exact calmH_pure _
+  · exact calmH_pure _
+  · exact calmH_fail _
 
 theorem calmH_oidcExplicitPopulate (code client) : calmH (oidcExplicitPopulate code client) := by
   unfold oidcExplicitPopulate
@@ -47,6 +54,12 @@ theorem calmH_oidcExplicitPopulate (code client) : calmH (oidcExplicitPopulate c
   · split
     · exact calmH_pure _
     · exact calmH_fail _
+
+theorem safeH_calm_then {α} (rc) (x : HP α) (K : RState → α → Prop) (rs) (hc : calmH x) (hK : ∀ rs' a, K rs' a) :
+    safeH rc x K rs := by
+  apply safeH_of_calm_wpOk rc x K rs hc
+  unfold wpOk
+  exact wp_mono rc x.toProg _ _ rs (fun rs' r _ a _ => hK rs' a) (wp_true rc x.toProg rs)
 
 theorem guard_trivial (ss : SState) (c : Call) (h : Guardless c) : GInv ss → Guard ss c :=
   fun _ => guard_of_guardless ss c h.1 h.2
@@ -149,15 +162,15 @@ theorem redeem_safe (rc : RunCfg) (hp : Plain rc) (cfg : Config) (now : Time) (q
     · intro n hrt
       refine ⟨guard_trivial _ _ (by guardless), ?_⟩
       intro _
-      apply safeH_of_calm_wpOk rc _ _ _ (calmH_oidcExplicitPopulate _ _)
-      apply wpOk_oidcExplicitPopulate rc q.code client _ _ hnf
-      intro _ _ _; trivial
+      apply safeH_calm_then rc _ _ _ (calmH_oidcExplicitPopulate _ _); intro _ _
+      apply safeH_calm_then rc _ _ _ (calmH_pkcePopulate _); intro _ _
+      trivial
   · intro _
     refine ⟨guard_trivial _ _ (by guardless), ?_⟩
     intro _
-    apply safeH_of_calm_wpOk rc _ _ _ (calmH_oidcExplicitPopulate _ _)
-    apply wpOk_oidcExplicitPopulate rc q.code client _ _ hnf
-    intro _ _ _; trivial
+    apply safeH_calm_then rc _ _ _ (calmH_oidcExplicitPopulate _ _); intro _ _
+    apply safeH_calm_then rc _ _ _ (calmH_pkcePopulate _); intro _ _
+    trivial
 
 theorem exec_rotate_effect (ss : SState) (rid sig : Nat) (k : Option Nat) (rec : RefreshRec)
     (hi : alookup ss.store.rtIdx rid = some sig) (hl : alookup ss.store.refresh sig = some rec) :
@@ -248,12 +261,6 @@ theorem refresh_safe (rc : RunCfg) (hp : Plain rc) (cfg : Config) (now : Time) (
     trivial
 
 /-! ### the authorization endpoint -/
-
-theorem safeH_calm_then {α} (rc) (x : HP α) (K : RState → α → Prop) (rs) (hc : calmH x) (hK : ∀ rs' a, K rs' a) :
-    safeH rc x K rs := by
-  apply safeH_of_calm_wpOk rc x K rs hc
-  unfold wpOk
-  exact wp_mono rc x.toProg _ _ rs (fun rs' r _ a _ => hK rs' a) (wp_true rc x.toProg rs)
 
 theorem exactOne_length (xs : List String) (x : String) (h : exactOne xs x = true) : xs.length = 1 := by
   unfold exactOne at h; simp at h; exact h.1
